@@ -47,7 +47,7 @@ type RS struct {
 }
 
 // NumHidden is the number of hidden perturbations per module (0 = none).
-var NumHidden = []int{16, 2, 4, 4, 3, 4}
+var NumHidden = []int{16, 2, 6, 9, 3, 4}
 
 // ID encodes the rule's content class (module, resource, variant) and its table index. Rule
 // managers reuse the controller (and the rule object) of an earlier load for a rule that is
@@ -226,6 +226,12 @@ func BuildHotspot(r RS) *hotspot.Rule {
 			x.SpecificItems = map[interface{}]int64{"zz": 5}
 		case 3:
 			x.DurationInSec = 2
+		case 4, 5:
+			// throttling rules that differ in the queueing time only (threshold 0 blocks under throttling too)
+			x.ControlBehavior, x.MaxQueueingTimeMs = hotspot.Throttling, 5
+			if r.Hid == 5 {
+				x.MaxQueueingTimeMs = 7
+			}
 		}
 	}
 	return x
@@ -263,6 +269,24 @@ func BuildBreaker(r RS) *cb.Rule {
 			x.StatSlidingWindowBucketCount = 2
 		case 3:
 			x.ProbeNum = 2
+		case 4, 5, 6:
+			// slow-request-ratio breakers that differ in exactly one field (never trip: a million requests needed)
+			if r.Var == 0 {
+				x.Strategy, x.MaxAllowedRtMs, x.Threshold = cb.SlowRequestRatio, 100, 0.5
+				if r.Hid == 5 {
+					x.MaxAllowedRtMs = 10
+				}
+				if r.Hid == 6 {
+					x.Threshold = 0.6
+				}
+			}
+		case 7, 8:
+			if r.Var == 0 {
+				x.Strategy, x.Threshold = cb.ErrorRatio, 0.5
+				if r.Hid == 8 {
+					x.Threshold = 0.6
+				}
+			}
 		}
 	}
 	return x
